@@ -76,7 +76,7 @@ def jobs(tier: str):
         for prog, inp in family_programs(tier):
             cfg = [config(t, i, o, NOORC) for t in famcfg for (i, o) in ((inp, []),)]
             yield job("C03/family", prog, [], cfg, checks=["terminate"], meta={})
-        cfgs2 = [DEFAULT, TRAITS] if quick else CONFIG12
+        cfgs2 = [TRAITS] if quick else CONFIG12
         for a, b in combinations(singles(), 2):
             prog = CONTEXT + "\n" + a + "\n" + b
             cfg = [config(t, "auto", "auto", NOORC) for t in cfgs2]
